@@ -73,7 +73,31 @@ func parseMapOp(s string) mapOp {
 	return mapOp{kind: 'c'}
 }
 
-func runCmapCase(c *Ctx, ops []mapOp, probes []int) {
+// oracle: latest covering registration after the last clear, for the history ops[:n]
+func cmapExpect(ops []mapOp, p int) string {
+	if p < 0 {
+		return "n"
+	}
+	for j := len(ops) - 1; j >= 0; j-- {
+		o := ops[j]
+		if o.kind == 'c' {
+			break
+		}
+		lo, hi := o.lo, o.hi
+		if o.kind == 'd' {
+			lo, hi = 0, 0xfffe
+		}
+		if hi >= 0xffff {
+			hi = 0xfffe
+		}
+		if lo <= p && p <= hi {
+			return o.ref
+		}
+	}
+	return "n"
+}
+
+func cmapLine(ops []mapOp, probes []int) string {
 	var sb strings.Builder
 	sb.WriteString("cmap")
 	for _, o := range ops {
@@ -84,50 +108,43 @@ func runCmapCase(c *Ctx, ops []mapOp, probes []int) {
 	for _, p := range probes {
 		fmt.Fprintf(&sb, " %d", p)
 	}
-	opLine := sb.String()
+	return sb.String()
+}
+
+// One map instance receives the whole history; it is probed after EVERY operation (lookups
+// interleaved with registrations: a map that caches look-ups must still answer with the latest
+// registration) and each prefix is compared with the model.
+func runCmapCase(c *Ctx, ops []mapOp, probes []int) {
+	opLine := cmapLine(ops, probes)
 	var oracle string
+	var prefixImpl []string
 	impl := safeCall(func() string {
 		m := utilities.NewCharReferenceMap()
-		for _, o := range ops {
-			switch o.kind {
-			case 'a':
-				m.AddInterval(rune(o.lo), rune(o.hi), refOf(o.ref))
-			case 'd':
-				m.AddDefaultInterval(refOf(o.ref))
-			case 'c':
-				m.Clear()
-			}
-		}
-		outs := make([]string, len(probes))
-		for i, p := range probes {
-			got := showRefAny(m.Lookup(rune(p)))
-			outs[i] = got
-			// direct oracle: latest covering registration after the last clear
-			exp := "n"
-			if p >= 0 {
-				for j := len(ops) - 1; j >= 0; j-- {
-					o := ops[j]
-					if o.kind == 'c' {
-						break
-					}
-					lo, hi := o.lo, o.hi
-					if o.kind == 'd' {
-						lo, hi = 0, 0xfffe
-					}
-					if hi >= 0xffff {
-						hi = 0xfffe
-					}
-					if lo <= p && p <= hi {
-						exp = o.ref
-						break
-					}
+		last := ""
+		for n := 0; n <= len(ops); n++ {
+			if n > 0 {
+				o := ops[n-1]
+				switch o.kind {
+				case 'a':
+					m.AddInterval(rune(o.lo), rune(o.hi), refOf(o.ref))
+				case 'd':
+					m.AddDefaultInterval(refOf(o.ref))
+				case 'c':
+					m.Clear()
 				}
 			}
-			if got != exp && oracle == "" {
-				oracle = fmt.Sprintf("Lookup(%#x) = %s, latest covering registration says %s", p, got, exp)
+			outs := make([]string, len(probes))
+			for i, p := range probes {
+				got := showRefAny(m.Lookup(rune(p)))
+				outs[i] = got
+				if exp := cmapExpect(ops[:n], p); got != exp && oracle == "" {
+					oracle = fmt.Sprintf("after %d operation(s) Lookup(%#x) = %s, latest covering registration says %s", n, p, got, exp)
+				}
 			}
+			last = strings.Join(outs, " ")
+			prefixImpl = append(prefixImpl, last)
 		}
-		return strings.Join(outs, " ")
+		return last
 	})
 	straddle := false
 	for _, o := range ops {
@@ -150,6 +167,13 @@ func runCmapCase(c *Ctx, ops []mapOp, probes []int) {
 		return
 	}
 	c.model(opLine, impl, "model|spec")
+	// intermediate look-ups against the model as well (longer histories only: the exhaustive
+	// enumeration already contains every prefix as a history of its own)
+	if len(ops) > 3 {
+		for n := 1; n < len(ops); n++ {
+			c.model(cmapLine(ops[:n], probes), prefixImpl[n], "model|spec")
+		}
+	}
 }
 
 func propC17(c *Ctx) {
